@@ -256,20 +256,26 @@ CHECKS = {
             "mode and the lambda/symbol clash rule), DTM/NTM (one shared sequence of checks), MNTM (single-tape rules first, "
             "InconsistentTapesException only when all of them hold) and GNFA at the structural level (label validity is an input "
             "bit; the regex validator is C11's); valid_dfa / valid_nfa - the hypothesis of every other FA theorem - are exactly "
-            "'duplicate-free keys and the constructor accepts'; for DFA, NFA, NPDA, DPDA, DTM/NTM and MNTM every exception raised is the documented exception "
+            "'duplicate-free keys and the constructor accepts'; valid_dtm / valid_ntm / valid_mntm + valid_tapes - the hypotheses of the C03/C17 theorems, on "
+            "records without state/symbol sets - hold exactly when the constructor accepts the machine embedded in the raw shape over any "
+            "Q, I, T, the rules about those sets and (MNTM) the explicit side conditions apart (C19_valid_tm_agrees); "
+            "for DFA, NFA, GNFA (structural rules: initial/final state, final state without outgoing transitions, complete table, end states, label bit), "
+            "NPDA, DPDA, DTM/NTM and MNTM every exception raised is the documented exception "
             "of a rule that really is broken (rules stated declaratively, one constructor per documented rule with its exception), a "
             "definition with a broken rule is rejected, and when all broken rules share one documented exception - in "
             "particular a single broken rule - exactly that exception is raised; PDA constructors raise only the four documented "
-            "kinds; the DPDA checker C02 reasons about is this checker; valid_pda is 'duplicate-free keys and the NPDA constructor accepts'; results of the Boolean DFA operations, of every expression tree of them, of DFA.from_nfa and of "
+            "kinds; for DFA, NFA and GNFA the rules are also listed as propositions in the code's checking order and the exception raised is that of "
+            "the FIRST broken rule of the list (C19_first_broken_rule_dfa/_nfa/_gnfa); the DPDA checker C02 reasons about is this checker; valid_pda is 'duplicate-free keys and the NPDA constructor accepts'; results of the Boolean DFA operations, of every expression tree of them, of DFA.from_nfa and of "
             "NFA.from_dfa pass validate() (collected from C04/C07; extended as further operations get their theorem); on a well-formed "
             "definition the constructor returns the same object with validation on or off. NOT proved, monitored on every run: that no "
             "operation reads the two process-wide flags (the same battery of ~75 operations per case runs in four separate interpreter "
             "processes; verdicts on all words up to length 5, state counts and exception kinds must be identical; every returned "
-            "automaton is re-validated by validate() and by the model in all four); the ORDER in which several broken rules are "
-            "reported (correspondence: implementation = model on pairs of corruptions; implementation = model = documented kind on "
-            "every single-rule corruption); the GNFA label rule beyond the structural level.",
+            "automaton is re-validated by validate() and by the model in all four); that the model's ORDER of checks is the code's "
+            "(correspondence: implementation = model on pairs of corruptions; implementation = model = documented kind on "
+            "every single-rule corruption; PDA/TM order as a list of propositions is not stated); the GNFA label rule beyond the structural level.",
             "The two flags are interpreter state (DESIGN 6): monitored, not proved. Open known finding: FA validate() accepts a "
-            "transition row keyed by a name outside `states` (not a documented rule; TM classes do check it). PDA validate() does not "
+            "transition row keyed by a name outside `states` (not a documented rule; TM classes do check it). Open known finding: "
+            "GNFA.validate() accepts a transition into the initial state / initial = final state (class docstring forbids both; to_regex() then raises KeyError). PDA validate() does not "
             "check target states or pushed symbols and TM validate() does not check that the blank is outside the input symbols: "
             "neither is a documented/tested rule, none is generated.", "7/C19"),
 }
